@@ -18,6 +18,7 @@ import numpy as np
 
 from mc import lattice
 from mc.oracle import hyp
+from mc.oracle.derived import edges_of, ideal_endpoints, tangent_aux, rows_err, pair_err_unordered
 
 TOL_EXACT = 1e-12
 TOL_SIN = 1e-8
@@ -92,11 +93,6 @@ def proj_data(root):
     shape = tuple(root["shape"])
     units = [proj_unit(root["cls"], k, n, root["cx"]) for k in range(size(shape))]
     return np.array(units).reshape(shape + units[0].shape)
-
-
-def edges_of(vertices):
-    """Oracle for a polygon's derived data: edge i = (vertex i, vertex i+1 cyclically)."""
-    return np.stack([vertices, np.roll(vertices, -1, axis=-2)], axis=-2)
 
 
 def build_proj(root):
@@ -398,49 +394,6 @@ def build_hyp(root):
     else:
         raise ValueError(cls)
     return obj, data, aux
-
-
-def ideal_endpoints(pair):
-    """Oracle: the two null points of the projective line through x = pair[...,0,:], y = pair[...,1,:]:
-    roots t of <x + t(y-x), x + t(y-x)> = 0, returned in increasing t (rows)."""
-    x, y = pair[..., 0, :], pair[..., 1, :]
-    d = y - x
-    a, b, c = hyp.mink(d, d), 2.0 * hyp.mink(x, d), hyp.mink(x, x)
-    disc = np.sqrt(b * b - 4.0 * a * c)
-    t1, t2 = (-b - disc) / (2.0 * a), (-b + disc) / (2.0 * a)
-    return np.stack([x + t1[..., None] * d, x + t2[..., None] * d], axis=-2)
-
-
-def tangent_aux(data):
-    """Oracle: (basepoint, vector projected Minkowski-orthogonally to the basepoint)."""
-    p, w = data[..., 0, :], data[..., 1, :]
-    proj = w - (hyp.mink(w, p) / hyp.mink(p, p))[..., None] * p
-    return np.stack([p, proj], axis=-2)
-
-
-def rows_err(a, b):
-    a, b = np.asarray(a), np.asarray(b)
-    if a.shape != b.shape:
-        return float("inf")
-    e = hyp.proj_sin_err(a, b)
-    if e.size == 0:
-        return 0.0
-    if not np.all(np.isfinite(e)):
-        return float("inf")
-    return float(np.max(e))
-
-
-def pair_err_unordered(a, b):
-    """Row-projective distance between arrays of unordered pairs of points (..., 2, m)."""
-    a, b = np.asarray(a), np.asarray(b)
-    if a.shape != b.shape:
-        return float("inf")
-    e1 = np.maximum(hyp.proj_sin_err(a[..., 0, :], b[..., 0, :]), hyp.proj_sin_err(a[..., 1, :], b[..., 1, :]))
-    e2 = np.maximum(hyp.proj_sin_err(a[..., 0, :], b[..., 1, :]), hyp.proj_sin_err(a[..., 1, :], b[..., 0, :]))
-    e = np.minimum(e1, e2)
-    if not np.all(np.isfinite(e)):
-        return float("inf")
-    return float(np.max(e)) if e.size else 0.0
 
 
 def cmp_rows(v, tag, cls, got, exp_data, exp_aux, tol=TOL_SIN):
